@@ -56,7 +56,13 @@ impl Kind {
     }
 }
 
-pub const HIST_BOUNDS: &[f64] = &[1.0, 4.0];
+/// Bucket configurations used by histogram collectors (as configured; a trailing +Inf is dropped by the
+/// library and an empty list selects the default buckets).
+pub const HIST_CONFIGS: &[&[f64]] = &[&[1.0, 4.0], &[f64::INFINITY], &[], &[0.5], &[1.0, 4.0, f64::INFINITY], &[-1.0, 3.0]];
+
+pub fn adjusted_bounds(cfg: &[f64]) -> Vec<f64> {
+    crate::props::c08::accept(cfg).expect("scenario bucket configurations are valid")
+}
 
 #[derive(Clone, Debug)]
 pub struct CollSpec {
@@ -67,6 +73,8 @@ pub struct CollSpec {
     pub vars: Vec<String>,
     /// scalar: one entry with an empty tuple; vector: one entry per child
     pub children: Vec<(Vec<String>, u32)>, // (label values, integer payload seed >= 1)
+    /// histogram kinds: index into HIST_CONFIGS
+    pub hist_cfg: usize,
 }
 
 #[derive(Clone, Debug)]
@@ -83,6 +91,10 @@ const VNAMES: &[&str] = &["b", "l", "y", "aa"];
 const COMMON: &[&str] = &["r1", "env", "dc", "a0", "zone"];
 
 pub fn value_for(kind: Kind, seed: u32) -> NValue {
+    value_for_cfg(kind, seed, 0)
+}
+
+pub fn value_for_cfg(kind: Kind, seed: u32, hist_cfg: usize) -> NValue {
     let s = seed as f64;
     match kind {
         Kind::Counter | Kind::CounterVec => NValue::Counter(s + 0.25),
@@ -92,7 +104,11 @@ pub fn value_for(kind: Kind, seed: u32) -> NValue {
         Kind::Histogram | Kind::HistogramVec => {
             // observations: `seed` times 1.0 and once 3.0
             let n = seed as u64;
-            NValue::Histogram { count: n + 1, sum: s + 3.0, buckets: vec![(1.0, n), (4.0, n + 1)] }
+            let buckets = adjusted_bounds(HIST_CONFIGS[hist_cfg])
+                .into_iter()
+                .map(|b| (b, (if 1.0 <= b { n } else { 0 }) + (if 3.0 <= b { 1 } else { 0 })))
+                .collect();
+            NValue::Histogram { count: n + 1, sum: s + 3.0, buckets }
         }
     }
 }
@@ -142,7 +158,8 @@ pub fn gen_scenario(src: &mut Src, allow_mixed: bool) -> Scenario {
                 seed += 1;
                 children.push((vec![], seed));
             }
-            colls.push(CollSpec { kind: k, name: name.to_string(), help: help.clone(), consts, vars: vnames.clone(), children });
+            let hist_cfg = if matches!(k, Kind::Histogram | Kind::HistogramVec) { src.below(HIST_CONFIGS.len()) } else { 0 };
+            colls.push(CollSpec { kind: k, name: name.to_string(), help: help.clone(), consts, vars: vnames.clone(), children, hist_cfg });
         }
     }
     // prefixes include strings that are themselves the head of other metric names in the pool, so that
@@ -203,7 +220,7 @@ pub fn build_collector(c: &CollSpec) -> Box<dyn Collector> {
             Box::new(m)
         }
         Kind::Histogram => {
-            let m = Histogram::with_opts(HistogramOpts::from(opts_of(c)).buckets(HIST_BOUNDS.to_vec())).unwrap();
+            let m = Histogram::with_opts(HistogramOpts::from(opts_of(c)).buckets(HIST_CONFIGS[c.hist_cfg].to_vec())).unwrap();
             hist_feed(&m, c.children[0].1);
             Box::new(m)
         }
@@ -240,7 +257,7 @@ pub fn build_collector(c: &CollSpec) -> Box<dyn Collector> {
             Box::new(m)
         }
         Kind::HistogramVec => {
-            let m = HistogramVec::new(HistogramOpts::from(opts_of(c)).buckets(HIST_BOUNDS.to_vec()), &names).unwrap();
+            let m = HistogramVec::new(HistogramOpts::from(opts_of(c)).buckets(HIST_CONFIGS[c.hist_cfg].to_vec()), &names).unwrap();
             for (t, s) in &c.children {
                 hist_feed(&m.with_label_values(t), *s);
             }
@@ -274,7 +291,7 @@ pub fn expected(s: &Scenario) -> Vec<NFamily> {
                 let mut labels: Vec<(String, String)> = c.vars.iter().cloned().zip(t.iter().cloned()).collect();
                 labels.extend(c.consts.iter().map(|(k, v)| (k.clone(), v.clone())));
                 labels.sort();
-                samples.push((labels, value_for(c.kind, *seed)));
+                samples.push((labels, value_for_cfg(c.kind, *seed, c.hist_cfg)));
             }
         }
         if samples.is_empty() {
